@@ -1,5 +1,5 @@
 # replay of a bounded stand-in violation (C09/C10): re-run native/c09_engine.py
 import sys
-print('C10: sqrt(q*q) of a measured parameter with outcome (0.3+0.4j) evaluates to (0.5+0j), the function of the outcome is (0.3+0.4j)')
+print("fock [Del q0 then measure q1, feed q2; successor deletes the measured mode afterwards]: raised RuntimeError: Register mismatch: program 1, 'None'. (after [])")
 print('REPLAY-VIOLATION')
 sys.exit(1)
